@@ -356,3 +356,15 @@ Qed.
 
 Lemma filter_length_le {A} (f : A -> bool) l : (length (filter f l) <= length l)%nat.
 Proof. induction l as [|x t IH]; cbn; [lia|]. destruct (f x); cbn; lia. Qed.
+
+(** reduce record projections over the setters and the flags of [cfg_fixed], nothing else *)
+Ltac scbn :=
+  cbn [hashmap items index cnonce pnonce arrival parking priority batched pnbs seqno ledger
+       set_hashmap set_items set_index set_cnonce set_pnonce set_arrival set_parking set_priority
+       set_batched set_pnbs set_seqno set_ledger
+       d_stale_entries d_commit_pending d_xacct_index d_lookup_hash cfg_fixed].
+Ltac scbn_in H :=
+  cbn [hashmap items index cnonce pnonce arrival parking priority batched pnbs seqno ledger
+       set_hashmap set_items set_index set_cnonce set_pnonce set_arrival set_parking set_priority
+       set_batched set_pnbs set_seqno set_ledger
+       d_stale_entries d_commit_pending d_xacct_index d_lookup_hash cfg_fixed] in H.
